@@ -8,6 +8,7 @@ import z3
 from symx import core as S
 from symx.core import SymNum, SymBool, SymArray, is_sym
 from symx.harness import Job
+import symx.stubs  # noqa: registers scipy stubs
 
 
 # ---------------------------------------------------------------------------
